@@ -272,6 +272,10 @@ SETS_UNITS = [
      [("IPSet", "iter_ipranges", {})]),
     (SETSFILE, "pysrc_sets_mut_gen.v", "sets", SETS_REQ,
      [("IPSet", "compact", {}), ("IPSet", "pop", {}), ("IPSet", "update:ipset", {"iterable": "ipset"}), ("IPSet", "union", {"other": "ipset"})]),
+    # add / remove of an IPNetwork object; _compact_single_network changes its parameter (SETS_MUTABLE_PARAMS)
+    (SETSFILE, "pysrc_sets_add_gen.v", "sets", SETS_REQ,
+     [("IPSet", "_compact_single_network", {"added_network": "net"}), ("IPSet", "add:net", {"addr": "net"}),
+      ("IPSet", "remove:net", {"addr": "net"})]),
 ]
 UNITS += SETS_UNITS
 FILES = FILES + tuple(u[1] for u in SETS_UNITS)
@@ -294,8 +298,13 @@ FUEL[("IPSet", "symmetric_difference", 3)] = ("other_len", 1)
 # a list parameter that the function appends to and the caller reads afterwards: function -> index of that parameter; the function
 # returns (that list, its value), the call `x = f(.., l)` is `l, x = f(.., l)`
 SETS_OUTPARAM = {"_subtract": 3}
+FUEL[("IPSet", "_compact_single_network", 4)] = ("added_network.prefixlen", 1)      # Sets.merge_up: Z.to_nat (nplen added) + 1
+# an IPNetwork parameter that the method changes in place (`x.prefixlen -= 1`, `x._value = e`): the method is translated with a
+# local copy; every caller must not read its argument after the call (checked at the call), and the object must be out of every
+# dict when it is changed (checked: `del d[x]` precedes the attribute assignments in their block)
+SETS_MUTABLE_PARAMS = {("IPSet", "_compact_single_network"): "added_network"}
 RESERVED |= set("py_dict_mem py_dict_set py_dict_del py_dict_fromkeys py_dict_update py_dict_eqb py_dict_popitem py_sorted_nets "
-                "py_net_ltb py_index py_list_from py_sum py_cidr_merge_nets py_iprange py_net_of_addr".split())
+                "py_net_ltb py_index py_list_from py_sum py_cidr_merge_nets py_iprange py_net_of_addr py_net_previous py_net_next".split())
 
 
 class Untranslatable(Exception):
@@ -2225,15 +2234,22 @@ def _sets_mutates(st, d, fn):
 
 def _sets_check_iteration(loop, d, fn):
     """a `for` over the keys of dict d: d may be changed in the body only directly before `return` / `break`"""
+    def deep(st):
+        return _sets_mutates(st, d, fn) or any(_sets_mutates(n, d, fn) for n in ast.walk(st) if isinstance(n, ast.stmt))
+
     def walk(stmts):
+        stmts = [st for st in stmts if not isinstance(st, ast.Assert)]
         for i, st in enumerate(stmts):
-            if _sets_mutates(st, d, fn) and not (i + 1 < len(stmts) and isinstance(stmts[i + 1], (ast.Return, ast.Break))):
-                bad(st, "the dict %s is changed while a loop runs over its keys" % d)
-            for name in ("body", "orelse", "finalbody"):
-                if isinstance(getattr(st, name, None), list):
-                    walk(getattr(st, name))
-            for h in getattr(st, "handlers", []):
-                walk(h.body)
+            if not deep(st):
+                continue
+            # after a change of d the block must leave the loop: it ends with return / break and has no continue after the change
+            if isinstance(stmts[-1], (ast.Return, ast.Break)) and not any(isinstance(n, ast.Continue) for x in stmts[i + 1:] for n in ast.walk(x)):
+                continue
+            if isinstance(st, ast.If):                  # .. or each branch of an `if` leaves by itself
+                walk(st.body)
+                walk(st.orelse)
+                continue
+            bad(st, "the dict %s is changed while a loop runs over its keys" % d)
     walk(loop.body)
 
 
@@ -2245,7 +2261,44 @@ class SetsPrepare(ast.NodeTransformer):
     def place(t):
         return isinstance(t, ast.Name) or _is_cidrs(t)
 
+    @staticmethod
+    def inline_search_loop(f):
+        """X = None [; Y = None] / for v in D: if c: X = ..; Y = ..; break / if X is not None: body   (the last statements of f)
+        -> for v in D: if c: X = ..; Y = ..; body; return      (X, Y used nowhere else; loop variables of `body` renamed apart)"""
+        b = f.body
+        if len(b) < 3 or not (isinstance(b[-1], ast.If) and not b[-1].orelse and isinstance(b[-2], ast.For) and not b[-2].orelse):
+            return
+        t, loop = b[-1].test, b[-2]
+        if not (isinstance(t, ast.Compare) and len(t.ops) == 1 and isinstance(t.ops[0], ast.IsNot) and isinstance(t.left, ast.Name)
+                and isinstance(t.comparators[0], ast.Constant) and t.comparators[0].value is None):
+            return
+        k = len(b) - 2
+        names = []
+        while k > 0 and (isinstance(b[k - 1], ast.Assign) and len(b[k - 1].targets) == 1 and isinstance(b[k - 1].targets[0], ast.Name)
+                         and isinstance(b[k - 1].value, ast.Constant) and b[k - 1].value.value is None):
+            k -= 1
+            names.append(b[k].targets[0].id)
+        inner = loop.body[0] if len(loop.body) == 1 else None
+        if (t.left.id not in names or not (isinstance(inner, ast.If) and not inner.orelse and inner.body and isinstance(inner.body[-1], ast.Break))
+                or any(isinstance(n, (ast.Break, ast.Continue, ast.Return)) for st in inner.body[:-1] + b[-1].body for n in ast.walk(st))):
+            return
+        elsewhere = [n for st in b[:k] + [inner.test, loop.iter] for n in ast.walk(st) if isinstance(n, ast.Name) and n.id in names]
+        stores = [n for st in inner.body for n in ast.walk(st) if isinstance(n, ast.Name) and n.id in names and isinstance(n.ctx, ast.Store)]
+        if elsewhere or {n.id for n in stores} != set(names) or not isinstance(loop.target, ast.Name):
+            return
+        moved = b[-1].body
+        for st in moved:                            # loop variables of the moved statements that clash with the search loop's
+            for n in ast.walk(st):
+                if isinstance(n, ast.For) and isinstance(n.target, ast.Name) and n.target.id == loop.target.id:
+                    new = n.target.id + "_2"
+                    for m in ast.walk(n):
+                        if isinstance(m, ast.Name) and m.id == loop.target.id:
+                            m.id = new
+        inner.body = inner.body[:-1] + moved + [ast.copy_location(ast.Return(value=None), inner.body[-1])]
+        f.body = b[:k] + [loop]
+
     def visit_FunctionDef(self, f):
+        self.inline_search_loop(f)
         f = self.generic_visit(f)
         for n in ast.walk(f):
             for name in ("body", "orelse"):
@@ -2403,6 +2456,11 @@ def sets_rhs(self, node, env):
     """the expression forms of the sets units; None: not one of them (the general translation applies)"""
     if isinstance(node, ast.Dict) and not node.keys:
         return ("dict", "[]")
+    if isinstance(node, ast.Dict) and len(node.keys) == 1 and isinstance(node.values[0], ast.Constant) and node.values[0].value is True:
+        (tk, kt) = self.ex(node.keys[0], env)           # {k: True}
+        if tk != "net":
+            bad(node, "dict literal with a key of kind %s" % show(tk))
+        return ("dict", "(py_dict_set [] %s)" % kt)
     if isinstance(node, ast.Attribute) and sets_ipset_var(self, node.value, env):
         t = env[node.value.id][1]
         if node.attr == "_cidrs":
@@ -2581,6 +2639,24 @@ def sets_call(self, node, env):
         if any(ty != "obj" for ty, _ in args):
             bad(node, "IPRange() of something other than two IPAddress objects")
         return ("out", ("tup", ("int", "int", "int")), "(py_iprange %s %s)" % (args[0][1][3], args[1][1][3]))
+    if isinstance(f, ast.Attribute) and isinstance(f.value, ast.Name) and env.get(f.value.id, ("",))[0] == "net" and plain:
+        x, m = env[f.value.id][1], f.attr               # x.m(..) for an IPNetwork x
+        r = self.tr.modof("IPNetwork").lookup("IPNetwork", m)
+        if not r or r[2]:
+            bad(node, "call of %s.%s" % (f.value.id, m))
+        if m in ("previous", "next") and not node.args:
+            if [a.arg for a in r[1].args.args] != ["self", "step"] or [const_int(d) for d in r[1].args.defaults] != [1]:
+                bad(node, "IPNetwork.%s is not %s(self, step=1)" % (m, m))
+            return ("out", "net", "(py_net_%s %s)" % (m, x))       # not translated: the hand model (Sets.net_previous / net_next)
+        d = self.tr.get("IPNetwork", m, node)
+        args = [self.ex(a, env) for a in node.args]
+        dflt, params = d.f.args.defaults, d.f.args.args[1:]
+        for i in range(len(args), len(d.params)):
+            j = i - (len(params) - len(dflt))
+            if j < 0 or const_int(dflt[j]) is None:
+                bad(node, "call of IPNetwork.%s without argument %s" % (m, params[i].arg))
+            args = args + [("int", "%d" % const_int(dflt[j]))]
+        return self.generated(node, "IPNetwork", m, "(nver %s) (width (nver %s)) (nval %s) (nplen %s)" % (x, x, x, x), args)
     if isinstance(f, ast.Attribute) and sets_ipset_var(self, f.value, env):
         r = self.mod.lookup("IPSet", f.attr)            # x.m(..) for an IPSet x other than self
         if not r or r[2] or node.keywords:
@@ -2589,7 +2665,7 @@ def sets_call(self, node, env):
     if (self.recv == "IPSet" and isinstance(f, ast.Attribute) and dotted(f) == "self." + f.attr and f.attr != "__class__" and plain
             and not sets_listed("IPSet", f.attr) and sets_variants(f.attr)):
         k = len(STATEVARS["IPSet"])                     # self.m(..) for a method translated in variants (by the type of its argument)
-        return sets_method_call(self, node, f.attr, " ".join(self.ex(x, env)[1] for x in node.args[:k]), [self.ex(x, env) for x in node.args[k:]])
+        return sets_method_call(self, node, f.attr, " ".join(self.ex(x, env)[1] for x in node.args[:k]), [self.ex(x, env) for x in node.args[k:]], "dict")
     return None
 
 
@@ -2601,7 +2677,7 @@ def sets_variants(name):
     return [w[1] for u in SETS_UNITS for w in u[4] if w[0] == "IPSet" and w[1].partition(":")[0] == name and ":" in w[1]]
 
 
-def sets_method_call(self, node, name, state, args):
+def sets_method_call(self, node, name, state, args, newstate="ipset"):
     """call of IPSet method `name` on the IPSet `state`: the variant `name:<type of the first argument>` if the method is
     translated in variants; missing trailing arguments take the (int constant) defaults of the definition"""
     if not sets_listed("IPSet", name):
@@ -2620,7 +2696,7 @@ def sets_method_call(self, node, name, state, args):
         args = args + [("int", "%d" % const_int(dflt[j]))]
     r = self.generated(node, "IPSet", name, state, args)
     if d.mutating and not d.valued:
-        return (r[0], "ipset", r[2]) if r[0] == "out" else ("ipset", r[1])      # the new state of that IPSet
+        return (r[0], newstate, r[2]) if r[0] == "out" else (newstate, r[1])    # the new state of that IPSet
     return r
 
 
@@ -2650,12 +2726,43 @@ def sets_stmt(self, stmts, env, k, after):
             return self.wrap(pre, ("bind" if r[0] == "out" else "let", pattern(names), r[2] if r[0] == "out" else r[1], go(env)))
         self.restore(snap)
         self.pre = pre0
+    if (isinstance(s, (ast.Assign, ast.AugAssign)) and isinstance((s.targets[0] if isinstance(s, ast.Assign) else s.target), ast.Attribute)):
+        tgt = s.targets[0] if isinstance(s, ast.Assign) else s.target
+        if (tgt.attr == "prefixlen" and isinstance(tgt.value, ast.Name) and env.get(tgt.value.id, ("",))[0] == "net"
+                and (isinstance(s, ast.AugAssign) or len(s.targets) == 1)):
+            # x.prefixlen = e on an owned IPNetwork object: through the property's setter _set_prefixlen (range check), then a record update
+            c = self.tr.modof("IPNetwork").classes["IPNetwork"]
+            props = [st for st in c.body if isinstance(st, ast.Assign) and len(st.targets) == 1 and dotted(st.targets[0]) == "prefixlen"]
+            if not (len(props) == 1 and isinstance(props[0].value, ast.Call) and dotted(props[0].value.func) == "property"
+                    and len(props[0].value.args) >= 2 and dotted(props[0].value.args[1]) == "_set_prefixlen"):
+                bad(s, "IPNetwork.prefixlen is not property(.., _set_prefixlen, ..)")
+            x, old = tgt.value.id, env[tgt.value.id][1]
+            if not self.owned(x):
+                bad(s, "attribute assignment on %s, which may be visible under another name" % x)
+            value = s.value if isinstance(s, ast.Assign) else ast.copy_location(ast.BinOp(_sets_load(tgt), s.op, s.value), s)
+            e = self.int_(ast.fix_missing_locations(value), env)
+            pre = self.take_pre()
+            d = self.tr.get("IPNetwork", "_set_prefixlen", s)
+            self.depfns.append(d)
+            h = self.fresh()
+            cn, env = self.bind_local(s, x, "net", env, value)
+            return self.wrap(pre, ("bind", h, "(%s (nver %s) (width (nver %s)) (nval %s) (nplen %s) (SInt %s))" % (d.cname, old, old, old, old, e),
+                                   ("let", cn, "{| nver := nver %s; nval := nval %s; nplen := %s |}" % (old, old, h), go(env))))
+    if isinstance(s, ast.Assign) and isinstance(s.value, ast.Call) and getattr(s.value, "state_call", False) and isinstance(s.value.func, ast.Attribute):
+        key = (self.recv, s.value.func.attr)
+        if key in SETS_MUTABLE_PARAMS and dotted(s.value.func) == "self." + s.value.func.attr:
+            r = self.mod.lookup(*key)
+            i = [a.arg for a in r[1].args.args].index(SETS_MUTABLE_PARAMS[key]) - 1 + len(STATEVARS[self.recv])
+            a = s.value.args[i] if i < len(s.value.args) else None
+            if not isinstance(a, ast.Name) or any(isinstance(n, ast.Name) and n.id == a.id and isinstance(n.ctx, ast.Load)
+                                                  for st in rest + after for n in ast.walk(st)):
+                bad(s, "the argument of %s, which changes it in place, is read after the call" % key[1])
     if isinstance(s, ast.If):
         t, neg = s.test, False
         if isinstance(t, ast.UnaryOp) and isinstance(t.op, ast.Not):
             t, neg = t.operand, True
         if (isinstance(t, ast.Call) and dotted(t.func) == "isinstance" and len(t.args) == 2 and not t.keywords and isinstance(t.args[0], ast.Name)
-                and t.args[0].id in self.ptypes_declared and t.args[0].id in env and isinstance(env[t.args[0].id][0], str)
+                and t.args[0].id in env and isinstance(env[t.args[0].id][0], str)
                 and env[t.args[0].id][0] in SETS_CLASS_OF):
             # isinstance(<parameter>, C) / (C1, C2): decided by the declared type of the parameter
             cs = t.args[1].elts if isinstance(t.args[1], ast.Tuple) else [t.args[1]]
@@ -2687,13 +2794,34 @@ def sets_owned(self, x):
     x.<attribute> or the left operand of `x in <dict>`: then `x._prefixlen = e` is a plain update of x"""
     bases = {id(n.value) for n in ast.walk(self.f) if isinstance(n, ast.Attribute)}
     bases |= {id(n.left) for n in ast.walk(self.f) if isinstance(n, ast.Compare) and len(n.ops) == 1 and isinstance(n.ops[0], (ast.In, ast.NotIn))}
+    bases |= {id(o) for n in ast.walk(self.f) if isinstance(n, ast.Compare) and len(n.ops) == 1 and isinstance(n.ops[0], (ast.Eq, ast.NotEq))
+              for o in [n.left] + n.comparators}        # x == y reads key() only
     binds = [st for st in ast.walk(self.f) if isinstance(st, (ast.Assign, ast.AugAssign, ast.For, ast.With, ast.NamedExpr))
              and any(isinstance(n, ast.Name) and n.id == x and isinstance(n.ctx, ast.Store) and id(n) not in bases for n in ast.walk(st))]
     copyctor = lambda st: (isinstance(st, ast.Assign) and len(st.targets) == 1 and isinstance(st.targets[0], ast.Name) and isinstance(st.value, ast.Call)
                            and dotted(st.value.func) == "IPNetwork" and len(st.value.args) == 1 and not st.value.keywords
                            and isinstance(st.value.args[0], ast.Name) and self.mod.imports.get("IPNetwork") == "netaddr.ip.IPNetwork")
-    return (bool(binds) and all(copyctor(st) for st in binds) and x not in [a.arg for a in self.f.args.args]
-            and all(id(n) in bases for n in ast.walk(self.f) if isinstance(n, ast.Name) and n.id == x and isinstance(n.ctx, ast.Load)))
+    for n in ast.walk(self.f):                       # x as the key of d[x] = True / del d[x] (rewritten by sets_prepare)
+        if isinstance(n, ast.Call) and isinstance(n.func, ast.Name) and n.func.id in ("__sets_dict_set", "__sets_dict_del") and len(n.args) == 2:
+            bases.add(id(n.args[1]))
+    reads_ok = all(id(n) in bases for n in ast.walk(self.f) if isinstance(n, ast.Name) and n.id == x and isinstance(n.ctx, ast.Load))
+    if SETS_MUTABLE_PARAMS.get((self.recv, self.pyname)) == x and x in [a.arg for a in self.f.args.args] and not binds and reads_ok:
+        def keyop(st, name):
+            return (isinstance(st, ast.Assign) and isinstance(st.value, ast.Call) and isinstance(st.value.func, ast.Name)
+                    and st.value.func.id == name and len(st.value.args) == 2 and isinstance(st.value.args[1], ast.Name) and st.value.args[1].id == x)
+        for blk in [getattr(n, nm) for n in ast.walk(self.f) for nm in ("body", "orelse") if isinstance(getattr(n, nm, None), list)]:
+            out = False                                 # is x known to be out of the dict at this point of the block?
+            for st in blk:
+                if keyop(st, "__sets_dict_del"):
+                    out = True
+                elif keyop(st, "__sets_dict_set"):
+                    out = False
+                elif (isinstance(st, (ast.Assign, ast.AugAssign)) and any(
+                        isinstance(t, ast.Attribute) and isinstance(t.value, ast.Name) and t.value.id == x
+                        for t in (st.targets if isinstance(st, ast.Assign) else [st.target])) and not out):
+                    return False
+        return True
+    return (bool(binds) and all(copyctor(st) for st in binds) and x not in [a.arg for a in self.f.args.args] and reads_ok)
 
 
 # ---- SRCA hooks
@@ -2762,6 +2890,15 @@ def _srca_block(old, self, stmts, env, k, after):
         if r is not None:
             return r
     return old(self, stmts, env, k, after)
+
+
+@_wrap(Fn, "loop")
+def _srca_loop(old, self, s, rest, env, k, after):
+    if _sets_on(self):
+        # a loop after an `if` with exits is reached once per branch: number the auxiliary names h<N> from a base that depends on
+        # the loop only, so that both translations are the same text (names are lexically scoped; the bases are far apart)
+        self.nfresh = 1000 * self.loopno[id(s)]
+    return old(self, s, rest, env, k, after)
 
 
 @_wrap(Fn, "owned")
